@@ -1,14 +1,14 @@
 """C03 — events reach their owner; loop ends only for stated reasons; loop == dispatch (offline oracle, plain build)."""
 from vf import gen, corecheck as cc, framework as fw, model_events
 
-RULE = ("[extra profiles: oneshot_burst (a one-shot subscription fires once however many matching messages are in flight), shared_signal (two modules poll one signal + one-shot descriptors ready in the same batch), fd_error (write end of a pipe whose reader is gone), signal_vs_task_thread, task_queued_at_quit (known finding)] "
+RULE = ("[extra profiles: oneshot_burst (a one-shot subscription fires once however many matching messages are in flight), shared_signal (two modules poll one signal + one-shot descriptors ready in the same batch), fd_error (write end of a pipe whose reader is gone), signal_vs_task_thread, task_queued_at_quit (known finding), quit_during_loop_start (quit requested by a callback the loop start runs)] "
         "sources profile (pipes/eventfds, timers, signals, tasks; 1-100 descriptors ready in one poll batch; every callback leaves a "
         "scripted errno: 0, EINTR, EAGAIN, EIO, ENOENT, EBADF, EPIPE, random 1..133; pause/stop/quit before, inside and after "
         "batches) plus the messaging profile; each scenario runs under the blocking loop and as a dispatch loop. Oracle: an event's "
         "(kind, key, user-data token) must belong to a source its module registered; a one-shot source fires once; every token the "
         "harness wrote into a registered pipe whose owner stayed RUNNING yields exactly one event by the end of the run (the run "
         "ends with enough empty batches); a loop run ends only after an accepted quit (returning exactly that code) or with no "
-        "module RUNNING; the per-module multisets of deterministic deliveries (pub/sub, descriptors, signals) of the two driving "
+        "module RUNNING; an accepted quit is honoured (no further poll batch in the blocking loop, the next dispatch call stops the loop); the per-module multisets of deterministic deliveries (pub/sub, descriptors, signals) of the two driving "
         "modes are equal. non-trivial = scenario delivering >= 3 non-kicker events; distinct = hash of the trace")
 ASSUME = ["no poll failures are injected: the 'genuine polling failure' exit is not exercised", "kernel pipe/epoll/signalfd/timerfd semantics",
           "timers are only bounded from above", "vf/model_events.py", "VERIF_SEED"]
@@ -42,6 +42,13 @@ def run(tier):
         for m in ("loop", "dispatch"):
             c = cc.Case()
             c.sc, c.profile, c.mode, c.seed = sc, "oneshot_burst", m, seed * 1000 + k
+            cases.append(c)
+
+    for k in range(16 if tier == "quick" else 400):
+        sc = gen.gen_quit_during_loop_start(seed * 1000 + k)
+        for m in ("loop", "dispatch"):
+            c = cc.Case()
+            c.sc, c.profile, c.mode, c.seed = sc, "quit_during_loop_start", m, seed * 1000 + k
             cases.append(c)
 
     for k in range(30 if tier == "quick" else 600):
